@@ -371,7 +371,11 @@ func (s *CDX) nodeToComponent(n *sbom.Node) *cdx.Component {
 			case int32(sbom.SoftwareIdentifierType_PURL):
 				c.PackageURL = n.Identifiers[idType]
 			case int32(sbom.SoftwareIdentifierType_CPE23):
-				c.CPE = n.Identifiers[idType]
+				// An empty 2.3 entry must not wipe a 2.2 value that the
+				// (randomly ordered) map iteration happened to visit first.
+				if cpe23 := n.Identifiers[idType]; cpe23 != "" {
+					c.CPE = cpe23
+				}
 			case int32(sbom.SoftwareIdentifierType_CPE22):
 				// TODO(degradation): Only one CPE is supported in CDX
 				if c.CPE == "" {
